@@ -105,3 +105,108 @@ def Mon.ok (m : Mon) : Bool := m.peak ≤ 1 && !m.foreign
 def Serial (tr : List Ev) : Bool := (monitor tr).ok
 
 end Cell2v.Loop
+
+/-! ### which scheduler a run service drains (`sche.Mgr.GetSche`, utils/sche/sche_mgr.go: create-if-missing
+by NAME; `NewRunService(name)` takes `rsScheMgr.GetSche(name)` and its ONE loop goroutine drains that
+scheduler's channel).  Single consumer per queue — what the loop model above assumes — therefore holds for a
+set of run services exactly when no two of them got the same scheduler. -/
+namespace Cell2v.ScheReg
+
+/-- the registry: name ↦ scheduler id, and the next fresh id -/
+structure Reg where
+  tab : List (String × Nat) := []
+  next : Nat := 0
+
+def find : List (String × Nat) → String → Option Nat
+  | [], _ => none
+  | (n, id) :: rest, name => if name = n then some id else find rest name
+
+/-- `GetSche(name)`: the registered scheduler, else a fresh one that is registered under the name -/
+def Reg.getSche (r : Reg) (name : String) : Reg × Nat :=
+  match find r.tab name with
+  | some id => (r, id)
+  | none => ({ tab := (name, r.next) :: r.tab, next := r.next + 1 }, r.next)
+
+/-- run services created one after the other with these names: the scheduler each one's loop drains -/
+def spawnAll : Reg → List String → List Nat
+  | _, [] => []
+  | r, n :: ns => (r.getSche n).2 :: spawnAll (r.getSche n).1 ns
+
+end Cell2v.ScheReg
+
+/-! ### `waterfall.Sche` (utils/waterfall/waterfall_sche.go) as a client of the loop: a chain of `steps` steps on ONE
+scheduler channel (channel 0).  Work item `k < steps` = the posted closure that runs step `k`; an item `≥ steps` =
+the posted closure that runs the final callback (`steps` after the last step, `steps + 1` after a failure).  A step
+completes when SOME thread — the consumer itself, inline, or any producer (a db / network worker) — calls the
+chain's callback with an error flag; `callbackFunc` does nothing but `sche.Post` the continuation. -/
+namespace Cell2v.Waterfall
+open Cell2v.Loop
+
+/-- one completion report: who calls the step's callback, with which error flag -/
+structure Report where
+  who : Thread
+  err : Bool
+
+/-- `Chain.invokeCallback`: what the continuation posted after step `k` runs -/
+def next (steps k : Nat) (err : Bool) : Nat := if err then steps + 1 else k + 1
+
+/-- the loop schedule a chain induces: item `k` is queued, `rs` are the completion reports still to come.  A step
+whose report never comes leaves the chain hanging after that step (nothing more runs); reports after the final
+callback are not modelled. -/
+def sched (steps : Nat) : Nat → List Report → List Lbl
+  | _, [] => [.pick 0, .finish]
+  | k, r :: rs =>
+    if k < steps then
+      (match r.who with
+       | .consumer => [.pick 0, .henq 0 (next steps k r.err), .finish]
+       | .producer p => [.pick 0, .finish, .enq p 0 (next steps k r.err)]) ++ sched steps (next steps k r.err) rs
+    else [.pick 0, .finish]
+
+end Cell2v.Waterfall
+
+/-! ### whose callbacks `timer.Mgr.Do` runs (utils/timer/timer.go).  A timer `Obj` is allocated by `After` / `AddTimer`
+of ONE manager (`NewTimerObj`: a fresh object every time, never reused), carries its callback and its `Canceled`
+flag; the `time.AfterFunc` closure (it captured the object and its manager) puts the OBJECT on that manager's queue
+unless it is cancelled; `Cancel` sets the flag; the owner's loop takes an object from its queue and `Do` runs its
+callback unless the flag is set.  Objects are addressed by allocation number. -/
+namespace Cell2v.TimerObj
+
+structure St where
+  nobj : Nat := 0                       -- objects allocated so far
+  owner : Nat → Nat := fun _ => 0       -- address ↦ the manager that allocated it
+  cb : Nat → Nat := fun _ => 0          -- address ↦ its callback
+  canceled : Nat → Bool := fun _ => false
+  queue : Nat → List Nat := fun _ => [] -- manager ↦ objects waiting in its queue
+  ran : List (Nat × Nat) := []          -- (manager whose loop ran it, callback), oldest first
+
+inductive Op where
+  | arm (m c : Nat)      -- `After` / `AddTimer` on manager `m` with callback `c`
+  | expire (a : Nat)     -- the AfterFunc closure of object `a` fires (any time, any number of times: repeating timers re-arm)
+  | cancel (a : Nat)     -- `Cancel`
+  | doNext (m : Nat)     -- the loop of `m` receives from its timer queue and calls `Do`
+
+def step (s : St) : Op → St
+  | .arm m c => { s with nobj := s.nobj + 1,
+                         owner := fun a => if a = s.nobj then m else s.owner a,
+                         cb := fun a => if a = s.nobj then c else s.cb a,
+                         canceled := fun a => if a = s.nobj then false else s.canceled a }
+  | .expire a =>
+    if a < s.nobj && !s.canceled a then
+      { s with queue := fun m => if m = s.owner a then s.queue m ++ [a] else s.queue m }
+    else s
+  | .cancel a => { s with canceled := fun x => if x = a then true else s.canceled x }
+  | .doNext m =>
+    match s.queue m with
+    | [] => s
+    | a :: rest =>
+      let s' := { s with queue := fun k => if k = m then rest else s.queue k }
+      if s.canceled a then s' else { s' with ran := s.ran ++ [(m, s.cb a)] }
+
+def run (s : St) (ops : List Op) : St := ops.foldl step s
+
+/-- the invariant: queued objects belong to the queue's manager; whatever ran was armed on the manager that ran it -/
+def Good (s : St) : Prop :=
+  (∀ m a, a ∈ s.queue m → a < s.nobj ∧ s.owner a = m) ∧
+  (∀ m c, (m, c) ∈ s.ran → ∃ a, a < s.nobj ∧ s.owner a = m ∧ s.cb a = c)
+
+end Cell2v.TimerObj
